@@ -219,7 +219,7 @@ def r4_push_pop(ctx):
             return Sym("fresh-map")
         if k == "core::convert::Into::into" and len(f.get("gargs") or []) == 2:
             src, dst = f["gargs"]
-            for cand in F.fns.get("<%s as core::convert::From>::from" % REG, []):
+            for cand in [g for kk, gs in F.fns.items() if kk.startswith("<%s as core::convert::From<" % REG) and kk.endswith(">::from") for g in gs]:
                 if dst.startswith(REG) and cand.sig and cand.sig["inputs"] and cand.sig["inputs"][0].split("<")[0] == src.split("<")[0]:
                     outs = interp.call_body(cand, args)
                     if len(outs) == 1 and outs[0][2] == "return":
